@@ -3994,7 +3994,9 @@ async fn run_rtp_direct_loop(
                             false
                         }
                     });
-                    let _ = inner.peer_state.send(PeerConnectionState::Closed);
+                    // The ICE transport was stopped underneath us: tear the rest down too
+                    // (sets Closed; a no-op when close() itself stopped ICE).
+                    inner.close_with_reason(DisconnectReason::IceDisconnected);
                 }
                 return;
             }
@@ -4151,7 +4153,9 @@ async fn run_ice_dtls_loop(
                             false
                         }
                     });
-                    let _ = inner.peer_state.send(PeerConnectionState::Closed);
+                    // The ICE transport was stopped underneath us: tear the rest down too
+                    // (sets Closed; a no-op when close() itself stopped ICE).
+                    inner.close_with_reason(DisconnectReason::IceDisconnected);
                 }
                 return;
             }
@@ -4238,6 +4242,9 @@ async fn handle_connected_state_no_dtls(
                 let _ = inner.peer_state.send(PeerConnectionState::Connected);
                 let grace = inner.config.ice_disconnect_grace;
                 drop(inner);
+                // `pc_temp` is a second strong handle: keeping it across the loop would stop
+                // `Drop for PeerConnectionInner` from ever running while connected.
+                drop(pc_temp);
 
                 let (grace_tx, mut grace_rx) = tokio::sync::mpsc::unbounded_channel::<u64>();
                 let mut disconnect_epoch: u64 = 0;
